@@ -257,7 +257,7 @@ UNIT['parts'] += [
      },
 ]
 
-BOUNDED = {'C12': [{'name': 'single-structural-faults-never-crash', 'script': 'modelfaults.py', 'args': ['--cover'], 'thorough_args': ['--models', '1000'],
+BOUNDED = {'C12': [{'name': 'single-structural-faults-never-crash', 'script': 'modelfaults.py', 'args': [], 'quick_args': ['--cover'], 'thorough_args': ['--models', '1000'],
                     'functions': ['dmntk_model::parse', 'ModelEvaluator::new (all builders of model-evaluator)', 'ModelEvaluator::evaluate_invocable for every decision / knowledge model / decision service with an empty context'],
                     'bound': 'quick: the 15 example models of a greedy cover of every element and attribute name used by the 148 shipped example models (thorough: all 148), each with every single fault of the kinds delete element, '
                              'duplicate element, empty text node, delete attribute, retarget href to a missing id (quick about 14 000 models, thorough about 64 000): parse + build + evaluate every invocable on the real code, '
